@@ -14,7 +14,7 @@ TRUSTED = SC.TRUSTED
 ASSUMPTIONS = SC.ASSUMPTIONS
 META = dict(technique='Coq proof (invariant over op sequences of the solver machine; DE selection loop by induction) + trace correspondence by vm_compute',
             level_text="Theorems (all costs, penalties, constraints, trial streams, op sequences): every logged call carries reduced cost + penalty at the logged point; for both DE solvers members and reported best are logged calls with the energy obtained there (or infinite), and the best never worsens; for Nelder-Mead (idempotent constraints, clean runs) every vertex energy is the energy a real call returned at the constrained vertex, and once the initial evaluation is logged the reported best is an evaluated point with the energy obtained there, satisfies the constraints and is the last step-monitor record (C01_nm_reported_best); the order hypotheses are shown satisfiable in an executable instance (rationals with +infinity) and a concrete run meets the premises. The machine (DE, DE2, Nelder-Mead, Powell) is tied to /repo by replaying generated API scripts through both and comparing evaluation log, population, energies and best after every operation; Powell's and the wrappers' C01 clauses are checked by the oracle on the real runs.",
-            level_note='Trusted: Coq kernel+VM; harness (generators, instrumentation of /repo from outside, printers, oracles). User cost/constraints/penalty, DE trial vectors, Nelder-Mead candidate points, argsort permutation and post-decoration populations are oracle inputs (recorded in the correspondence, universally quantified in theorems). Powell: line-search probes and the returned index are oracle inputs. Not in the machine model (oracle only): ensembles, tight/clip range modes. No NaN energies.',
+            level_note='Trusted: Coq kernel+VM; harness (generators, instrumentation of /repo from outside, printers, oracles). User cost/constraints/penalty, DE trial vectors, Nelder-Mead candidate points, argsort permutation and post-decoration populations are oracle inputs (recorded in the correspondence, universally quantified in theorems). Powell: line-search probes and the returned index are oracle inputs. Tight / clip=True range modes: the composite constraints.and_(constraints, bounds) is a recorded table. Not in the machine model (oracle only): ensembles, clip=False ranges. No NaN energies.',
             design_ref="5/C01")
 
 _generate = SC.make_generate(**dict(allow_vector=True))
